@@ -125,7 +125,10 @@ def mutate_text(rng, t):
     if k == "insline":
         ls = t.split("\n")
         ls.insert(rng.randrange(len(ls) + 1), rng.choice(["$TTL", "$TTL 1w", "$ORIGIN", "$ORIGIN x", "$ORIGIN x.", "$GENERATE 1-3 $ A 10.0.0.$", "$GENERATE 1-3/0 $ A 1.2.3.4",
-                                                          "$GENERATE 1-2 a${0,3,z} A 1.1.1.1", "$GENERATE 3-1 x A 1.1.1.1", "$GENERATE", "$GENERATE 1-2", "$INCLUDE /nonexistent", "$UNICODE 2008",
+                                                          "$GENERATE 1-2 a${0,3,z} A 1.1.1.1", "$GENERATE 3-1 x A 1.1.1.1",
+                                                          # modifier fields of hostile size (a zero-fill width is an allocation request; a number may have thousands of digits)
+                                                          "$GENERATE 1-2 a${0,99999999999,d} A 10.0.0.$", "$GENERATE 1-2 a TXT x${0,4000000000,x}", "$GENERATE 1-2 a${" + "1" * 5000 + ",1,d} A 10.0.0.$",
+                                                          "$GENERATE 1-2 a${0," + "9" * 4500 + "} A 10.0.0.$", "$GENERATE 1-" + "9" * 4400 + " a A 10.0.0.1", "$GENERATE 1-2 a${-5,3,d} A 10.0.0.$", "$GENERATE", "$GENERATE 1-2", "$INCLUDE /nonexistent", "$UNICODE 2008",
                                                           "$BOGUS", " ", "(", ")", "@", "@ IN", "@ 300", "@ IN SOA", " IN A 1.2.3.4", "\tA 1.2.3.4", '""', '"" IN A 1.2.3.4', "a 1 IN A", "a IN 1 A 1.2.3.4",
                                                           "a CH A 1.2.3.4", "outside.zone. 1 IN A 1.2.3.4", "a 99999999999 IN A 1.2.3.4", "a 1 IN TYPE65536 \\# 0", "a 1 IN CNAME b", "a 1 IN A 1.2.3.4"]))
         return "\n".join(ls), k
